@@ -276,7 +276,7 @@ func mustReject(v interface{}) string {
 func checkC16(e *env) {
 	r := e.res
 	r.Rule = "all 14 built-in documents and the test document, decode -> encode -> decode -> encode (equal value, stable encoding, re-encoded document semantically equal to the original: same tree after making the cornerOfOrigin default explicit, " +
-		"numbers compared as float64); documents obtained from them by 1..3 structural mutations (delete a key, drop an array element, replace a value by one of 35 palette values of every JSON kind) at paths biased to crs, tileMatrices and the tile matrix fields: " +
+		"numbers compared as float64); documents obtained from them by 1..3 structural mutations (delete a key, drop an array element, replace a value by one of 35 palette values of every JSON kind; one document in eight: an earlier tile matrix takes the id of a later one and is changed at one place) at paths biased to crs, tileMatrices and the tile matrix fields: " +
 		"no panic; accepted documents must survive the round trip; documents with missing crs/tileMatrices, wrong kinds, non-positive or non-numeric sizes, non-integer ids must be rejected; every document also goes through the model (op tmsdoc). " +
 		"Non-trivial = a mutated document; distinct by document text."
 	files, _ := filepath.Glob(filepath.Join(repoDir(), "tms20", "tilematrixsets", "*.json"))
@@ -376,6 +376,35 @@ func checkC16(e *env) {
 		}
 		depth := 1 + e.rng.Intn(3)
 		var desc []string
+		// two cooperating edits: an earlier tile matrix takes the id of a later one (the later one wins in the decoded set) and is itself
+		// changed at one place — every array element has to be validated, not only the ones that survive
+		if m, ok := tree.(map[string]interface{}); ok && e.rng.Intn(8) == 0 {
+			if l, ok := m["tileMatrices"].([]interface{}); ok && len(l) >= 2 {
+				k := e.rng.Intn(len(l) - 1)
+				j := k + 1 + e.rng.Intn(len(l)-k-1)
+				if a, ok := l[k].(map[string]interface{}); ok {
+					if b, ok := l[j].(map[string]interface{}); ok {
+						a["id"] = b["id"]
+						desc = append(desc, fmt.Sprintf("tileMatrices.%d.id := tileMatrices.%d.id", k, j))
+						var sub []path
+						collectPaths(a, nil, &sub)
+						if len(sub) > 0 {
+							sp := sub[e.rng.Intn(len(sub))]
+							full := append(path{"tileMatrices", k}, sp...)
+							if e.rng.Intn(3) == 0 {
+								tree = mutateAt(tree, full, true, nil)
+								desc = append(desc, "delete "+fmtPath(full))
+							} else {
+								v := deepCopy(palette[e.rng.Intn(len(palette))])
+								tree = mutateAt(tree, full, false, v)
+								desc = append(desc, fmt.Sprintf("%s := %s", fmtPath(full), canonJSON(v)))
+							}
+						}
+						depth = e.rng.Intn(2)
+					}
+				}
+			}
+		}
 		for k := 0; k < depth; k++ {
 			var paths []path
 			collectPaths(tree, nil, &paths)
